@@ -22,6 +22,8 @@ fn scale_case(i: u64, rng: &mut Rng) -> Option<(Params, SampleSet)> {
     let kind = match i % 160 {
         37 => 0,
         117 => 1,
+        77 => return Some(lookalike_groups_case(rng)),
+        97 => return Some(long_raw_segment_case(rng)),
         _ => return None,
     };
     let mut p = gen::params(rng, true);
@@ -49,13 +51,7 @@ fn scale_case(i: u64, rng: &mut Rng) -> Option<(Params, SampleSet)> {
                 }
             }
             let sn = format!("M{}#0", [9, 10, 2][si]);
-            let mut contigs = vec![(format!("{}#chr1 len={}", sn, len), d)];
-            if si == 1 {
-                // a novel contig without any splitter: one raw segment whose length needs the
-                // 4-byte form of the collection integers (>= 2 113 664)
-                let nl = rng.usize(2_150_000, 2_400_000);
-                contigs.push((format!("{}#novel len={}", sn, nl), gen::random_bases(rng, nl)));
-            }
+            let contigs = vec![(format!("{}#chr1 len={}", sn, len), d)];
             samples.push(gen::Sample { name: sn.clone(), contigs });
         }
     } else {
@@ -75,6 +71,88 @@ fn scale_case(i: u64, rng: &mut Rng) -> Option<(Params, SampleSet)> {
         }
     }
     Some((p, SampleSet { samples, pansn: true }))
+}
+
+/// A novel contig of more than 2.1 Mbases in a later sample, with k = 31 so that no reference
+/// splitter occurs in it by chance: one raw segment whose length needs the 4-byte form of the
+/// collection integers (>= 2 113 664; the 3-byte form ends at 2 113 663).
+fn long_raw_segment_case(rng: &mut Rng) -> (Params, SampleSet) {
+    let mut p = gen::params(rng, false);
+    p.k = 31;
+    p.segment_size = *rng.pick(&[20_000usize, 60_000]);
+    p.fallback = 0.0;
+    p.single_file = false;
+    p.capacity = 2 << 30;
+    p.pack = 50;
+    p.threads = *rng.pick(&[2usize, 4, 8]);
+    let l = rng.usize(200_000, 400_000);
+    let base = gen::random_bases(rng, l);
+    let second = gen::derive_contig(rng, &base, 3, false);
+    let nl = rng.usize(2_150_000, 2_400_000);
+    let novel = gen::random_bases(rng, nl);
+    let set = SampleSet {
+        samples: vec![
+            gen::Sample { name: "R9#0".into(), contigs: vec![("R9#0#chr1".into(), base)] },
+            gen::Sample { name: "R10#0".into(), contigs: vec![("R10#0#chr1".into(), second), (format!("R10#0#novel len={}", nl), novel)] },
+        ],
+        pansn: true,
+    };
+    (p, set)
+}
+
+/// Two LZ groups whose reference segments have the same length and the same first and last 16
+/// bases but different interiors (paralog-like): the splitter k-mers are planted (k = 21, front
+/// k-mers share their first 16 bases, back k-mers their last 16). Anything that identifies a
+/// reference by its length and ends, or keeps decoder state from one group to the next, mixes
+/// them up. Later samples carry SNPs in both interiors, so both groups hold real deltas.
+fn lookalike_groups_case(rng: &mut Rng) -> (Params, SampleSet) {
+    let mut p = gen::params(rng, true);
+    p.k = 21;
+    p.segment_size = 100;
+    p.fallback = 0.0;
+    p.single_file = false;
+    p.capacity = 2 << 30;
+    p.pack = 50;
+    p.min_match = rng.usize(15, 20);
+    let pre = gen::random_bases(rng, 16);
+    let suf = gen::random_bases(rng, 16);
+    let mut kmers: Vec<Vec<u8>> = Vec::new();
+    let ngroups = rng.usize(2, 4);
+    let ilen = rng.usize(120, 600);
+    let mut refs: Vec<Vec<u8>> = Vec::new();
+    for g in 0..ngroups {
+        // distinct 5-base tails / heads: g written in base 4 plus a random part
+        let tail: Vec<u8> = vec![(g % 4) as u8, (g / 4) as u8, rng.below(4) as u8, rng.below(4) as u8, (3 - g % 4) as u8];
+        let head: Vec<u8> = vec![(3 - g % 4) as u8, rng.below(4) as u8, (g % 4) as u8, rng.below(4) as u8, (g / 4) as u8];
+        let front = [&pre[..], &tail[..]].concat();
+        let back = [&head[..], &suf[..]].concat();
+        let interior = gen::random_bases(rng, ilen);
+        refs.push([&front[..], &interior[..], &back[..]].concat());
+        kmers.push(front);
+        kmers.push(back);
+    }
+    let mut samples = Vec::new();
+    for si in 0..rng.usize(3, 5) {
+        let sn = format!("L{}#0", [9, 10, 2, 33, 1][si]);
+        let contigs = refs
+            .iter()
+            .enumerate()
+            .map(|(g, r)| {
+                let mut d = r.clone();
+                if si > 0 {
+                    for _ in 0..rng.usize(1, 4) {
+                        let at = rng.usize(21, r.len() - 22);
+                        d[at] = (d[at] + 1 + rng.below(3) as u8) % 4;
+                    }
+                }
+                (format!("{}#para{}", sn, g), d)
+            })
+            .collect();
+        samples.push(gen::Sample { name: sn, contigs });
+    }
+    let planted: Vec<u64> = kmers.iter().map(|k| drive::canonical_kmer_value(k)).collect();
+    drive::PLANTED_SPLITTERS.with(|c| *c.borrow_mut() = Some(planted));
+    (p, SampleSet { samples, pansn: true })
 }
 
 pub fn case_inputs(seed: u64, i: u64, thorough: bool) -> (Params, SampleSet, Rng) {
@@ -332,6 +410,12 @@ pub fn run(args: &Args, rep: &mut Report, which: Which) {
             rep.count("archives_with_k32", 1);
         }
         rep.max("max_samples_in_an_archive", set.samples.len() as u64);
+        if i % 160 == 97 {
+            rep.count("archives_with_a_raw_segment_of_more_than_2_Mbases", 1);
+        }
+        if i % 160 == 77 {
+            rep.count("archives_with_look_alike_reference_segments", 1);
+        }
         if set.samples.len() > 256 {
             rep.count("archives_with_more_than_256_samples", 1);
         }
